@@ -165,8 +165,10 @@ class XKNX:
         self.task_registry.stop()
         self.state_updater.stop()
         await self.join()
-        await self.telegram_queue.stop()
+        # close the interface first - a telegram received while it disconnects is
+        # still processed by the queue instead of staying in it unaccounted
         await self.knxip_interface.stop()
+        await self.telegram_queue.stop()
         self.started.clear()
 
     async def loop_until_sigint(self) -> None:
